@@ -16,6 +16,7 @@ from pathlib import Path
 
 import core
 import projmodel
+import suitetrace
 from props import c19
 
 GOOD = "# SPDX-FileCopyrightText: 2020 Jane Doe\n# SPDX-License-Identifier: MIT\n"
@@ -237,6 +238,8 @@ def run(ctx: core.Ctx) -> int:
     events = [e for es in evl for e in es]
     for ev in events[:: max(1, len(events) // 5)][:5]:
         ctx.samples.append({k: ev[k] for k in ("label", "cmd", "class", "exit", "crashed", "namesFile", "tail")})
+    # every CLI invocation of the repository's own tests: exit status in {0, 1, 2}, no unhandled exception
+    events += suitetrace.for_c16(suitetrace.collect(ctx), 100000)
     ctx.validate("Trace_C16", "Trace_C16.cfg", events)
     for r in ctx.rejects:
         d = r.get("detail")
@@ -249,7 +252,8 @@ def run(ctx: core.Ctx) -> int:
              "deviations (quick: seeded sample of 250; thorough: all) x 2 sub-commands; 18 further classes (broken / non-UTF-8 "
              "TOML and dep5, duplicate keys, nested bad REUSE.toml, dep5 + REUSE.toml, covered files with NULs / invalid UTF-8 "
              "/ a 1 MB line / bad expression, unreadable and vanishing files, non-UTF-8 LicenseRef text and .license, "
-             "LICENSES as a file, broken template) x every sub-command; a sample through the real executable; "
+             "LICENSES as a file, broken template) x every sub-command; a sample through the real executable; every CLI invocation "
+             "of the repository's own tests/test_cli_*.py (exit-status discipline only); "
              "non-trivial = (input, command) pairs whose input is not a valid configuration",
         mc_violations=[{"clause": f"model:{v}", "kf": "", "detail": mc["out"][-1500:]} for v in mc["violated"]])
 
